@@ -14,7 +14,7 @@ ID = 'C08'
 LEVEL = 'exploration'
 N = {'quick': 32000, 'thorough': 800000}
 RULE = ('generated elections under meek, warren (strict and equal-rank ballots; fixed/guarded/rational x precision x guard x omega x defeat_batch, '
-        'in two option strata S1 "supported" and S2 "free") and meek-prf; invariants at the post-distribution snapshots the property names; '
+        'in two option strata S1 "supported" and S2 "free", plus 6 % with omega finer than the arithmetic resolves) and meek-prf; omega is the configured one (options), not the value in the record; invariants at the post-distribution snapshots the property names; '
         'non-trivial = some elected candidate has a keep factor below 1 at a checked snapshot; distinct = distinct case JSON')
 TECHNIQUE = 'property-based testing: invariants at post-distribution snapshots of generated Meek-family counts (exact Fractions), stratified options'
 LEVEL_TEXT = 'invariants over every named snapshot of generated Meek/Warren/PRF-Meek counts; option space stratified so that violations in the supported stratum are always new'
